@@ -441,10 +441,10 @@ func TestC03(t *testing.T) {
 	st.sample(map[string]any{"kind_sequence": strings.Split(string((&seqCase{Prefix: parkPrefixes[9], Seq: []int{7, 0, 4}}).bytes()), "\n")})
 
 	a := c03Mut
-	a.Checks = n(2500, 50000)
+	a.Checks = n(2500, 20000)
 	a.Run(t)
 	b := c03PP
-	b.Checks = n(40, 2000)
+	b.Checks = n(40, 800)
 	b.Run(t)
 }
 
